@@ -1138,7 +1138,7 @@ func runCowStack(kind string, p0, bp map[string]string) stackResult {
 	addFor := func(c cwop) {
 		a := sort.Search(len(wops), func(k int) bool { return wops[k].res > c.inv })
 		b := sort.Search(len(wops), func(k int) bool { return wops[k].inv > c.res })
-		if b-a > 60 || len(res.witnesses) >= 4 {
+		if b-a > 600 || len(res.witnesses) >= 4 {
 			return
 		}
 		res.witnesses = append(res.witnesses, mkWitness(&c, wops[a:b], replayStack(init, wops[:a])))
